@@ -40,7 +40,15 @@ def model_vs_impl(tag, cases, check_fn="check_validate", shard=120):
         if "render" in c:
             world, envs = c["render"](I)
         else:
-            world, envs = "empty_world", S.env_to_coq(I, c["shapes"])
+            ctx = None
+            if any(cmp[0] in ("sparql", "custom") for sh in c["shapes"] for cmp in sh["comps"]):
+                foci = set()
+                for tr in c["data"]:
+                    foci.add(tr[0]); foci.add(tr[2])
+                for sh in c["shapes"]:
+                    foci.update(sh["targets"]["nodes"])
+                ctx = {"data": c["data"], "foci": sorted(foci, key=lambda t: t.n3())}
+            world, envs = "empty_world", S.env_to_coq(I, c["shapes"], ctx=ctx)
         body = "%s (%s) (%s) (%s) (%s) (%s) (%s)" % (
             fn,
             world,
@@ -130,8 +138,15 @@ def standard_main(prop, prop_files, tier, seed, cases, rule, what, metamorphic=N
 
 def base_case(rng, **kw):
     data, nodes, lits = S.gen_typed_data(rng, n_iri=rng.randint(2, 5), n_bn=rng.randint(0, 1), n_lit=rng.randint(0, 2), n_triples=rng.randint(2, 12))
-    shapes = S.gen_shapes(rng, nodes, lits, n_shapes=rng.randint(2, 7), **kw)
-    S.add_templates(rng, shapes, nodes, lits)
+    if rng.random() < 0.4:
+        # focused case: one mechanism only, so that a wrong verdict of one shape is not masked by other shapes
+        tmpl = rng.choice([S.tmpl_custom, S.tmpl_severity, S.tmpl_qualified])
+        shapes = tmpl(rng, nodes, lits)
+        if rng.random() < 0.3:
+            shapes[0]["targets"]["nodes"] = shapes[0]["targets"]["nodes"][:1]
+    else:
+        shapes = S.gen_shapes(rng, nodes, lits, n_shapes=rng.randint(2, 7), **kw)
+        S.add_templates(rng, shapes, nodes, lits)
     return {"shapes": shapes, "sg": S.shapes_to_rdf(shapes), "data": data, "nodes": nodes, "lits": lits}
 
 
